@@ -113,14 +113,14 @@ theorem c06_full_events (m : Msg) (t : Tree) (a : List Nat) :
   have hsplit : (fullDiff m t).ents =
       ((m.ents.filter fun ei => (findE t ei.addr).isNone).map fun ei => { ei with chg := Chg.added }) ++
       ((t.filter fun e => !((m.ents.filter fun ei => (findE t ei.addr).isSome).map (·.addr)).contains e.addr).map
-        fun e => ({ addr := e.addr, typ := e.typ, chg := .removed } : EI)) := rfl
+        fun e => ({ addr := e.addr, typ := e.typ, chg := .removed, desc := none } : EI)) := rfl
   rw [hsplit, List.foldl_append]
   have hA := count_fold_added (fullDiff m t)
     ((m.ents.filter fun ei => (findE t ei.addr).isNone).map fun ei => { ei with chg := Chg.added }) (t, []) a
     (by intro ei h; obtain ⟨e, _, rfl⟩ := List.mem_map.mp h; rfl)
   have hR := count_fold_removed (fullDiff m t)
     ((t.filter fun e => !((m.ents.filter fun ei => (findE t ei.addr).isSome).map (·.addr)).contains e.addr).map
-        fun e => ({ addr := e.addr, typ := e.typ, chg := .removed } : EI))
+        fun e => ({ addr := e.addr, typ := e.typ, chg := .removed, desc := none } : EI))
     (((m.ents.filter fun ei => (findE t ei.addr).isNone).map fun ei => { ei with chg := Chg.added }).foldl
       (stepFixed (fullDiff m t)) (t, [])) a
     (by intro ei h; obtain ⟨e, _, rfl⟩ := List.mem_map.mp h; rfl)
@@ -156,7 +156,7 @@ theorem c06_full_events (m : Msg) (t : Tree) (a : List Nat) :
       exact hnm ⟨ei, hei, heq⟩
 
 /-- non-vacuity: [1] disappears, [2] appears, [0] stays -/
-example : (notifyFullFixed ⟨[⟨[0], 1, .none⟩, ⟨[2], 3, .none⟩], []⟩ [⟨[0], 1, []⟩, ⟨[1], 2, []⟩]).2.1
+example : (notifyFullFixed ⟨[⟨[0], 1, .none, none⟩, ⟨[2], 3, .none, none⟩], []⟩ [⟨[0], 1, none, []⟩, ⟨[1], 2, none, []⟩]).2.1
     = [.add [2], .rem [1]] := by decide
 
 end Spine.Disc
